@@ -246,7 +246,7 @@ def make_patterns(P):
     symnp.selftest()
     N = P["N"]
 
-    def h(kind: int, nm: int, n1: int, n2: int, snk: int, a1: Real, b1: Real, a2: Real, b2: Real, v1: Real, v2: Real, v3: Real, w1: Real, w2: Real, w3: Real) -> str:
+    def h(kind: int, nm: int, n1: int, n2: int, snk: int, a1: Real, b1: Real, a2: Real, b2: Real, v1: Real, v2: Real, v3: Real, v4: Real, w1: Real, w2: Real, w3: Real, w4: Real) -> str:
         k = fork_int(kind, 0, 3)
         n = fork_int(n1, 1, N)
         only_shard(k * 8 + n, P)
@@ -259,7 +259,7 @@ def make_patterns(P):
                 ref = [dict(m1=lin(a1, b1, n, i), **({"m2": lin(a2, b2, n, i)} if two else {})) for i in range(n)]
             elif k == 2:
                 two = fork_int(nm, 1, 2) == 2
-                l1, l2 = [v1, v2, v3][:n], [w1, w2, w3][:n]
+                l1, l2 = [v1, v2, v3, v4][:n], [w1, w2, w3, w4][:n]
                 cyc = pp.inner_list_product([M1, l1] + ([M2, l2] if two else []))
                 ref = [dict(m1=l1[i], **({"m2": l2[i]} if two else {})) for i in range(n)]
             else:
@@ -269,7 +269,7 @@ def make_patterns(P):
                     cyc = pp.outer_product([M1, a1, b1, n, M2, a2, b2, nn2, snaked])
                     slow, fast = [lin(a1, b1, n, i) for i in range(n)], [lin(a2, b2, nn2, j) for j in range(nn2)]
                 else:
-                    slow, fast = [v1, v2, v3][:n], [w1, w2, w3][:nn2]
+                    slow, fast = [v1, v2, v3, v4][:n], [w1, w2, w3, w4][:nn2]
                     cyc = pp.outer_list_product([M1, slow, M2, fast], [M2] if snaked else False)
                 ref = []
                 for i in range(n):
